@@ -479,26 +479,39 @@ def parseCommunity (env : RegexEnv) (s : String) : Option String :=
 
 def optOr {α} (a b : Option α) : Option α := match a with | some x => some x | none => b
 
+def Elem.pfx? : Elem → Option PEntry
+  | .pfx p => some p
+  | _ => none
+def Elem.nbr? : Elem → Option (Addr × Nat)
+  | .nbr a m => some (a, m)
+  | _ => none
+def Elem.single? : Elem → Option Single
+  | .single s => some s
+  | _ => none
+def Elem.pat? : Elem → Option String
+  | .pat s => some s
+  | _ => none
+def Elem.isPat : Elem → Bool
+  | .pat _ => true
+  | _ => false
+
 /-- the new contents given to `add_defined_set`, in the shape of a stored set; `none` = a pattern
     did not compile (`InvalidArgument`).  Prefix entries are kept in call order. -/
 def parseElems (env : RegexEnv) (k : SetKind) (elems : List Elem) : Option SetObj :=
   match k with
   | .prefix =>
-      let es := elems.filterMap (fun e => match e with | .pfx p => some p | _ => none)
+      let es := elems.filterMap Elem.pfx?
       let zero := (es.filter PEntry.isZero4).getLast?.map (fun e => (e.lo, e.hi))
       let zero6 := (es.filter PEntry.isZero6).getLast?.map (fun e => (e.lo, e.hi))
       some (.prefix (es.filter (fun e => !e.isZero4 && !e.isZero6)) zero zero6)
-  | .neighbor => some (.neighbor (elems.filterMap (fun e => match e with | .nbr a m => some (a, m) | _ => none)))
+  | .neighbor => some (.neighbor (elems.filterMap Elem.nbr?))
   | .aspath =>
-      let res := elems.filterMap (fun e => match e with | .pat s => some s | _ => none)
-      if res.all env.valid then
-        some (.aspath (elems.filterMap (fun e => match e with | .single s => some s | _ => none)) res)
-      else none
+      let res := elems.filterMap Elem.pat?
+      if res.all env.valid then some (.aspath (elems.filterMap Elem.single?) res) else none
   | .comm =>
-      (elems.filterMap (fun e => match e with | .pat s => some s | _ => none)).mapM (parseCommunity env)
-        |>.map .strs
+      ((elems.filterMap Elem.pat?).mapM (parseCommunity env)).map .strs
   | .ext | .large =>
-      let ps := elems.filterMap (fun e => match e with | .pat s => some s | _ => none)
+      let ps := elems.filterMap Elem.pat?
       if ps.all env.valid then some (.strs ps) else none
 
 def SetObj.isEmpty : SetObj → Bool
@@ -547,38 +560,43 @@ def Table.replaceDefinedSet (env : RegexEnv) (t : Table) (k : SetKind) (name : S
   if setInUse t k name then (t, .inUse)
   else Table.addDefinedSet env { t with sets := alErase (k, name) t.sets } k name elems
 
+/-- one element of a partial prefix-set delete: the `zero`/`zero6` entry if its range is the
+    given one, a stored entry if it is exactly the given one -/
+def removePfx (acc : SetObj) (e : Elem) : SetObj :=
+  match acc, e with
+  | .prefix es z z6, .pfx p =>
+      if p.isZero4 then .prefix es (if z == some (p.lo, p.hi) then none else z) z6
+      else if p.isZero6 then .prefix es z (if z6 == some (p.lo, p.hi) then none else z6)
+      else if pLookup p.key es == some p then .prefix (pErase p.key es) z z6
+      else .prefix es z z6
+  | a, _ => a
+
+def removeNbr (acc : List (Addr × Nat)) (e : Elem) : List (Addr × Nat) :=
+  match e with
+  | .nbr a m => acc.filter (fun s => s != (a, m))
+  | _ => acc
+
+def removeSingle (acc : List Single) (e : Elem) : List Single :=
+  match e with
+  | .single s => acc.filter (fun x => x != s)
+  | _ => acc
+
+def removePat (acc : List String) (p : String) : List String := acc.filter (fun x => x != p)
+
 /-- the `all = false` arm of `delete_defined_set` on the stored set; `none` = `InvalidArgument` -/
 def SetObj.remove (env : RegexEnv) (k : SetKind) (ex : SetObj) (elems : List Elem) : Option SetObj :=
   match ex with
-  | .prefix es z z6 =>
-      some (elems.foldl (fun acc e =>
-        match acc, e with
-        | .prefix es z z6, .pfx p =>
-            if p.isZero4 then .prefix es (if z == some (p.lo, p.hi) then none else z) z6
-            else if p.isZero6 then .prefix es z (if z6 == some (p.lo, p.hi) then none else z6)
-            else if pLookup p.key es == some p then .prefix (pErase p.key es) z z6
-            else .prefix es z z6
-        | a, _ => a) (.prefix es z z6))
-  | .neighbor l =>
-      some (.neighbor (elems.foldl (fun acc e =>
-        match e with
-        | .nbr a m => acc.filter (fun s => s != (a, m))
-        | _ => acc) l))
+  | .prefix es z z6 => some (elems.foldl removePfx (.prefix es z z6))
+  | .neighbor l => some (.neighbor (elems.foldl removeNbr l))
   | .aspath ss rs =>
-      let pats := elems.filterMap (fun e => match e with | .pat s => some s | _ => none)
-      if pats.all env.valid then
-        some (.aspath
-          (elems.foldl (fun acc e => match e with | .single s => acc.filter (fun x => x != s) | _ => acc) ss)
-          (pats.foldl (fun acc p => acc.filter (fun x => x != p)) rs))
+      let pats := elems.filterMap Elem.pat?
+      if pats.all env.valid then some (.aspath (elems.foldl removeSingle ss) (pats.foldl removePat rs))
       else none
   | .strs l =>
-      let pats := elems.filterMap (fun e => match e with | .pat s => some s | _ => none)
+      let pats := elems.filterMap Elem.pat?
       match k with
-      | .comm =>
-          (pats.mapM (parseCommunity env)).map (fun rs => .strs (rs.foldl (fun acc p => acc.filter (fun x => x != p)) l))
-      | _ =>
-          if pats.all env.valid then some (.strs (pats.foldl (fun acc p => acc.filter (fun x => x != p)) l))
-          else none
+      | .comm => (pats.mapM (parseCommunity env)).map (fun rs => .strs (rs.foldl removePat l))
+      | _ => if pats.all env.valid then some (.strs (pats.foldl removePat l)) else none
 
 def Table.deleteDefinedSet (env : RegexEnv) (t : Table) (k : SetKind) (name : String) (all : Bool) (elems : List Elem) : Table × Res :=
   if setInUse t k name then (t, .inUse)
